@@ -86,6 +86,17 @@ PROPS = {
         level_note="Model-level proof + black-box second runs; floor-of-mtime through each writer/reader pair is validated, not proved.",
         technique="Lean 4 proof over the run model + black-box second-run correspondence",
     ),
+    "C08": dict(
+        modules=["Copia.Props.C08"], namespaces=["Copia.C08"], runner="bb", bb_module="bb_crash", timeout=3000,
+        assumptions=_BI_ASSUME + ["'killed at any instant' is represented as 'before any libc call of the main thread' (strace injection); a kill inside one copy_file_range/write is covered by the staged file being opaque until renamed",
+                                  "power loss is represented only by the ordering predicate fsync(staged data) → rename → record on the real trace, not by a page-cache model"],
+        trusted_base=_BI_TB + ["strace (trace and signal injection)"],
+        level_text="Kernel-checked prefix theorems over the micro-step model of a run (stage/sync/publish/unlink per action, then the archive's stage/sync/bak/publish): after ANY prefix of the steps every live path holds a pre-run or a delivered "
+                   "complete version, the record is old/absent/new, and it is new only when all data steps are in the prefix and every published file had been synced. Tie (partial): the real run's mutating syscalls equal the model's step list (trace conformance) "
+                   "for 8 scenarios, and the real process is SIGKILLed before EVERY such call; post-kill trees/archive and crash recovery are checked.",
+        level_note="Partial: proof of the model + syscall-trace conformance + exhaustive kill points per scenario; intra-syscall preemption and real power loss are not exhibited.",
+        technique="Lean 4 proof (invariant over every prefix of the step list) + strace trace conformance + exhaustive kill-point injection",
+    ),
     "C11": dict(
         modules=["Copia.Props.C11"], namespaces=["Copia.C11"], runner="bb", bb_module="bb_hub",
         assumptions=_HUB_ASSUME, trusted_base=_HUB_TB,
